@@ -39,6 +39,9 @@ T = {
  "C11": ("exploration", "enumerated cell product on fresh real connections judged from callbacks, transport tap, state and live+stored counters", "§4 C11",
          "One fresh AsyncFIXClient / AsyncFIXDummyServer per cell with the real reader (and heartbeat) task: (A) every non-Logon class fed before the Logon exchange completes in each pre-session state and every non-Logon/Logout send in each state outside a session; (B) every integrity defect x message class x {before Logon, ACTIVE, RESENDREQ_AWAITING} x role x header order, alone and with valid frames behind it in the same read; (C) every disconnect cause incl. double causes followed by valid frames and sends. No delivery, no counter movement, drop (+Logout with reason where the counterparty is identifiable), silence afterwards, on_disconnect exactly once.",
          "too-low frames with PossDupFlag=Y or of type SequenceReset, and non-numeric MsgSeqNum, are outside the judged zone"),
+ "C12": ("exploration", "timed-tap monitor over virtual-time scenarios: real heartbeat and reader tasks against a scripted peer; verdicts from tapped frames with virtual timestamps, state and callbacks", "§4 C12",
+         "Grid of heartbeat interval x role x tick phase x peer pattern (silent, burst then silent, periodic traffic, Heartbeats every h, TestRequests answered after a delay, wrong / missing / duplicate answers, application TestRequests, inbound TestRequests with hostile ids) plus random mixtures on the virtual-time loop: TestRequest within [h-1,h+1] of silence, disconnect by 3h+2, live peers survive 12 intervals, identical TestReqID echoed first, never two TestRequests outstanding, wrong id ends with a Logout.",
+         "'never' is a 12-interval horizon; answers later than 2h-2.1 s and traffic slower than max(h/2, h-1.1) without answers are unspecified"),
  "C02": ("exploration", "independent strict framer as oracle on encoder output and on every tapped transport write", "§4 C02",
          "Every byte string the encoder returns for generated messages (incl. non-ASCII) and every write() of a real connection during random session histories is parsed by an independent strict FIX framer (BodyLength/CheckSum recomputed on bytes).",
          "vf.ref.fixwire is the definition of well-formed; empty values tolerated"),
